@@ -293,16 +293,20 @@ def tigerxml(tree, stream, **params):
     stream.write(u"  <terminals>\n")
     for terminal in trees.terminals(tree):
         stream.write(u"    <t id=\"%d\" " % terminal.data['num'])
-        if terminal.data['lemma'] is None:
-            terminal.data['lemma'] = trees.DEFAULT_LEMMA
-        if terminal.data['morph'] is None:
-            terminal.data['morph'] = trees.DEFAULT_MORPH
+        # quote copies of the fields, the tree itself stays as it is
+        attributes = {}
         for field in ['word', 'lemma', 'label', 'morph']:
-            terminal.data[field] = quoteattr(terminal.data[field])
-        stream.write(u"%s=%s " % ('word', terminal.data['word']))
-        stream.write(u"%s=%s " % ('lemma', terminal.data['lemma']))
-        stream.write(u"%s=%s " % ('pos', terminal.data['label']))
-        stream.write(u"%s=%s " % ('morph', terminal.data['morph']))
+            attributes[field] = terminal.data[field]
+        if attributes['lemma'] is None:
+            attributes['lemma'] = trees.DEFAULT_LEMMA
+        if attributes['morph'] is None:
+            attributes['morph'] = trees.DEFAULT_MORPH
+        for field in attributes:
+            attributes[field] = quoteattr(attributes[field])
+        stream.write(u"%s=%s " % ('word', attributes['word']))
+        stream.write(u"%s=%s " % ('lemma', attributes['lemma']))
+        stream.write(u"%s=%s " % ('pos', attributes['label']))
+        stream.write(u"%s=%s " % ('morph', attributes['morph']))
         stream.write(u"/>\n")
     stream.write(u"  </terminals>\n")
     stream.write(u"  <nonterminals>\n")
